@@ -122,6 +122,8 @@ pub fn run_seed(args: &[String]) {
             let v: Vec<usize> = dp.clone().into();
             for k in 0..v.len() {
                 add(format!("dynamic_params[{k}]+1"), &|q| { let mut w: Vec<usize> = q.dynamic_params.clone().unwrap().into(); w[k] += 1; q.dynamic_params = Some(swiftness_air::dynamic::DynamicParams::from(w)); });
+                // same low 32 bits (the proof file stores 32-bit parameters; the statement is over the full value)
+                add(format!("dynamic_params[{k}]+2^32"), &|q| { let mut w: Vec<usize> = q.dynamic_params.clone().unwrap().into(); w[k] += 1usize << 32; q.dynamic_params = Some(swiftness_air::dynamic::DynamicParams::from(w)); });
             }
         }
         variants.push(("nvf+1".into(), clone_pi(pi), nvf + Felt::ONE));
@@ -223,7 +225,11 @@ pub fn run_validate(args: &[String]) {
                     }
                 }
             }
-            let targets: Vec<Option<usize>> = if dev[0] == "usage" && dev[1] == 3 { vec![] } else if dev[0] == "usage" {
+            let targets: Vec<Option<usize>> = if dev[0] == "usage" && dev[1] == 3 { vec![] }
+            else if dev[0] == "simple" && dev[2] == "tinyTrace,usage=1inst" {
+                // every builtin whose row ratio exceeds the tiny trace, one at a time: the trace holds no instance of it
+                builtins.iter().enumerate().filter(|(_, b)| b.row_ratio > (1 << log_cpu)).map(|(i, _)| Some(i)).collect()
+            } else if dev[0] == "usage" {
                 builtins.iter().enumerate().filter(|(_, b)| (b.cells > 1) == (dev[1] == 1)).map(|(i, _)| Some(i)).collect()
             } else { vec![None] };
             if done_dev.insert(dkey.clone()) { for target in targets {
@@ -253,7 +259,7 @@ pub fn run_validate(args: &[String]) {
                         "tinyTrace,usage=0" => { pi.log_n_steps = Felt::ZERO; lt = log_cpu; zero_usage(&mut pi); }
                         "tinyTrace,usage=1inst" => { pi.log_n_steps = Felt::ZERO; lt = log_cpu; zero_usage(&mut pi);
                             // a builtin whose row ratio exceeds the tiny trace: the trace holds no instance
-                            if let Some(b) = builtins.iter().find(|b| b.row_ratio > (1 << log_cpu)) { pi.segments[b.seg].stop_ptr = pi.segments[b.seg].begin_addr + Felt::from(b.cells); } else { applicable = false; } }
+                            if let Some(i) = target { let b = &builtins[i]; pi.segments[b.seg].stop_ptr = pi.segments[b.seg].begin_addr + Felt::from(b.cells); } else { applicable = false; } }
                         o => panic!("dev {o}"),
                     }
                 } else {
